@@ -230,6 +230,10 @@ func c16Raw(emit func(c16Case)) {
 		{"json", `{"q\u0026a":"one","z":1}`, `{"q\u0026a":"two","z":1}`, "q&a"},
 		{"json", `{"meta":{"caf\u00e9":"one"},"z":1}`, `{"meta":{"caf\u00e9":2},"z":1}`, "meta.café"},
 		{"sjson", `{"\u0024id":"one","id":"keep"}`, `{"\u0024id":"two","id":"keep"}`, "$id"},
+		// a path through every element of a list (gjson `#`), where some elements lack the key - first, in the middle, last
+		{"json", `{"items":[{"id":1,"n":"a"},{"n":"b"},{"id":3,"n":"c"}],"k":1}`, `{"items":[{"id":7,"n":"a"},{"n":"b"},{"id":"nine","n":"c"}],"k":1}`, "items.#.id"},
+		{"sjson", `{"items":[{"n":"b"},{"id":3},{"id":4}]}`, `{"items":[{"n":"b"},{"id":5},{"id":null}]}`, "items.#.id"},
+		{"json", `{"items":[{"id":1},{"id":2},{}]}`, `{"items":[{"id":2},{"id":1},{}]}`, "items.#.id"},
 	} {
 		for _, kind := range []string{"rawany", "rawany-optional", "rawcustom", "rawcustom-optional"} {
 			emit(c16Case{API: p.api, Kind: kind, Text: p.a, Alt: p.b, Path: p.path, Doc: -1})
